@@ -46,7 +46,7 @@ LEVEL_TEXT = (
 LEVEL_NOTE = "Trusted: pandas CSV reader/writer and pickle as transport; label-dict observation of arrays. Bounded sizes."
 
 PROCS = ["sysenv", "use phase", "end-of-life / recycling: Müll"]
-ITEMS_A = {"t": [2000, 2001, 2002], "p": ["p1", "p2"], "q": ["q1", "q2"]}
+ITEMS_A = {"t": [2001, 2000, 2002], "p": ["p1", "p2"], "q": ["q1", "q2"]}  # typed int items listed unsorted
 ITEMS_B = {"t": [1990, 1995, 2005], "p": ["steel", "wood"], "q": ["new", "old"]}  # decoy: same names, letters, lengths
 ITEMS = ITEMS_A
 NAMES = {"t": "Time", "p": "Product", "q": "Quality"}
@@ -312,9 +312,11 @@ def run_todfs_case(k):
     dims = [DimensionDefinition(name=NAMES[l], letter=l, dtype=int if l == "t" else str) for l in "tpq"[:nd]]
     L = "tpq"[:nd]
     flows = [FlowDefinition(from_process=PROCS[i % 2], to_process=PROCS[(i + 1) % 2], dim_letters=tuple(L[: 1 + (i + variant) % nd]), name_override=None if (i + variant) % 2 else f"flow {i}") for i in range(nf)]
-    stocks = [StockDefinition(name=f"stock {i}", dim_letters=tuple(L), subclass=flodym.StockDrivenDSM if (i + variant) % 2 else flodym.SimpleFlowDrivenStock, lifetime_model_class=flodym.NormalLifetime if (i + variant) % 2 else None, solver="lapack" if variant % 2 else "manual", process=PROCS[1] if variant < 2 else None) for i in range(ns)]
-    params = [ParameterDefinition(name=f"par {i}", dim_letters=tuple(reversed(L[: 1 + (i % nd)]))) for i in range(npar)]
-    defn = MFADefinition(dimensions=dims, processes=PROCS[:2] if variant % 2 == 0 else [], flows=flows if variant % 2 == 0 else [], stocks=stocks if variant % 2 == 0 else [], parameters=params)
+    dup = variant == 3  # several definitions sharing one name (e.g. stocks left at the default name)
+    stocks = [StockDefinition(name=("undefined stock" if dup else f"stock {i}"), dim_letters=tuple(L), subclass=flodym.StockDrivenDSM if (i + variant) % 2 else flodym.SimpleFlowDrivenStock, lifetime_model_class=flodym.NormalLifetime if (i + variant) % 2 else None, solver="lapack" if variant % 2 else "manual", process=PROCS[1] if variant < 2 else None) for i in range(ns)]
+    params = [ParameterDefinition(name=("par" if dup else f"par {i}"), dim_letters=tuple(reversed(L[: 1 + (i % nd)]))) for i in range(npar)]
+    full = variant % 2 == 0 or dup
+    defn = MFADefinition(dimensions=dims, processes=PROCS[:2] if full else [], flows=flows if full else [], stocks=stocks if full else [], parameters=params)
 
     def fail(what):
         return "fail", dict(case=case, tags=dict(kind="to_dfs"), what=f"to_dfs of definition #{k}: {what}")
